@@ -7,28 +7,41 @@ cd "$(dirname "$0")"
 . ./env.sh
 ID="$1"; shift
 MODE="${1:-${VERIF_TIER:-quick}}"
-cp /repo/go.sum ./go.sum 2>/dev/null || true
-mkdir -p bin evidence replays
+REPO="${VERIF_REPO:-/repo}"
+cp "$REPO/go.sum" ./go.sum 2>/dev/null || true
+mkdir -p bin evidence replays .scratch
 BIN=bin/vcheck
+MODFLAG=""
+if [ "$REPO" != "/repo" ]; then
+  # development aid (seeded-change runs against a scratch worktree): same harness, other tree
+  TAG=$(echo "$REPO" | tr -c 'A-Za-z0-9' '_')
+  sed "s#=> /repo#=> $REPO#" go.mod > .scratch/alt$TAG.mod
+  cp go.sum .scratch/alt$TAG.sum
+  MODFLAG="-modfile=.scratch/alt$TAG.mod"
+  BIN=bin/vcheck$TAG
+  export VERIF_REPO="$REPO"
+  export VERIF_OUT="$PWD/.scratch/out$TAG"
+  mkdir -p "$VERIF_OUT"
+fi
 if [ "$ID" = "C18" ]; then
   # C18: race-detector build against a scratch copy of /repo's working tree into which
   # tools/genglobals writes digest functions over all package-level variables.
-  BIN=bin/vcheck-race
-  SCR="$PWD/.scratch/c18-repo"
+  BIN=bin/vcheck-race$TAG
+  SCR="$PWD/.scratch/c18-repo$TAG"
   mkdir -p "$PWD/.scratch"
   rm -rf "$SCR"
-  rsync -a --exclude .git --exclude test-data /repo/ "$SCR/"
+  rsync -a --exclude .git --exclude test-data --exclude _out "$REPO/" "$SCR/"
   if ! go run ./tools/genglobals "$SCR" >bin/genglobals.out 2>&1; then
     cat bin/genglobals.out; echo "HARNESS-ERROR property=$ID genglobals failed"; exit 2
   fi
-  sed "s#=> /repo#=> $SCR#" go.mod > .scratch/c18.mod
-  cp go.sum .scratch/c18.sum
-  if ! go build -race -tags "verif verifglobals" -modfile=.scratch/c18.mod -o $BIN ./cmd/vcheck 2>bin/build.err; then
+  sed "s#=> /repo#=> $SCR#" go.mod > .scratch/c18$TAG.mod
+  cp go.sum .scratch/c18$TAG.sum
+  if ! go build -race -tags "verif verifglobals" -modfile=.scratch/c18$TAG.mod -o $BIN ./cmd/vcheck 2>bin/build.err; then
     cat bin/build.err; echo "HARNESS-ERROR property=$ID build failed (library does not compile?)"; exit 2
   fi
   rm -rf "$SCR"
 else
-  if ! go build -tags verif -o $BIN ./cmd/vcheck 2>bin/build.err; then
+  if ! go build -tags verif $MODFLAG -o $BIN ./cmd/vcheck 2>bin/build.err; then
     cat bin/build.err; echo "HARNESS-ERROR property=$ID build failed (library does not compile with -tags verif?)"; exit 2
   fi
 fi
